@@ -1,55 +1,7 @@
-import MuduoVerif.Proofs.ClientClose
+import MuduoVerif.Proofs.ClientHook
 /-! Preservation of `Mid` by the channel dispatch of a connection and by the queued functors. -/
 namespace MuduoVerif.Client
 open MuduoVerif.Gen.Client
-
-def chanOff : ConnRec → ConnRec := fun r => { r with chanOn := false }
-def toDisconnecting : ConnRec → ConnRec := fun r => { r with st := .disconnecting }
-def detach : ConnRec → ConnRec := fun r => { r with closeCb := .detached }
-
-macro "mid_auto3" : tactic =>
-  `(tactic| (first | assumption | grind [attempting, held, nRetry_snoc_retry, nRetry_snoc_park, Task.plain, Task.holds, updRec, goDown, chanOff, toDisconnecting, detach] | skip))
-
-/-- fields the invariant does not read -/
-theorem Mid.env {c : C} {r : List Task} {ph : Bool} (hi : Mid c r ph) (e1 : List Nat) (e2 : List Nat) (e3 : List Bool)
-    (e4 : List (Option Nat)) (b : Bool) (h : Nat) :
-    Mid { c with envConnect := e1, envSoErr := e2, envSelf := e3, envRead := e4, starved := b, horizon := h } r ph :=
-  ⟨hi.notDead, hi.a1, hi.a2, hi.a3, hi.a4, hi.a5, hi.a6, hi.a7, hi.a8, hi.a9, hi.a10, hi.a11, hi.a13, hi.a14, hi.a15, hi.a16,
-   hi.s1, hi.c1, hi.c2, hi.c3, hi.c4, hi.c5, hi.c6, hi.c7, hi.c8, hi.c9, hi.c10, hi.g1, hi.g3, hi.t1⟩
-
-theorem closeSock_conns (c : C) (k : Nat) : (closeSock c k).conns = c.conns := rfl
-theorem retry_conns (c : C) (k : Nat) : (retry c k).conns = c.conns := by
-  unfold retry closeSock; simp only; repeat' split
-  all_goals rfl
-theorem connecting_conns (c : C) (k : Nat) : (connecting c k).conns = c.conns := by
-  unfold connecting die; repeat' split
-  all_goals rfl
-theorem popConnect_conns (c : C) : (popConnect c).2.conns = c.conns := by
-  obtain ⟨e, b, h⟩ := popConnect_snd c; rw [h]
-theorem connect_conns (c : C) : (connect c).conns = c.conns := by
-  unfold connect
-  simp only
-  split
-  · rw [connecting_conns, popConnect_conns]
-  · rw [retry_conns, popConnect_conns]
-  · rw [closeSock_conns, popConnect_conns]
-theorem startInLoop_conns (c : C) : (startInLoop c).conns = c.conns := by
-  unfold startInLoop die
-  repeat' split
-  all_goals first | rfl | exact connect_conns _
-
-theorem handleClose_conns (c : C) (k : Nat) : (handleClose c k).conns = c.conns.map (updRec k goDown) := by
-  unfold handleClose
-  simp only
-  split
-  · rfl
-  · split
-    · rfl
-    · split
-      · rfl
-      · split
-        · unfold restart; rw [startInLoop_conns]; rfl
-        · rfl
 
 theorem handleRead_mid (c : C) (r : List Task) (ph : Bool) (hi : Mid c r ph) (k : Nat) (x : ConnRec)
     (hx : findIn c.conns k = some x) (hst : x.st ≠ .disconnected) (hch : x.closeCb = .client → c.chan = none) :
@@ -91,8 +43,8 @@ theorem dispatchConn_mid (c : C) (r : List Task) (ph : Bool) (hi : Mid c r ph) (
         have h1 := handleClose_mid c r ph hi k x hx hst hch
         rw [if_neg (by simp [h1.notDead])]
         have hoff : ((findConn (handleClose c k) k).map (·.chanOn)).getD false = false := by
-          rw [findConn_eq, handleClose_conns, findIn_upd k k goDown (fun _ => rfl), hx]
-          simp [updRec, hxs, goDown]
+          rw [findConn_eq, handleClose_find c k x hx]
+          simp [goDown]
         rw [hoff]
         rw [if_neg (by simp [MuduoVerif.Gen.Conn.dispReadSub])]
         exact h1
@@ -101,84 +53,6 @@ theorem dispatchConn_mid (c : C) (r : List Task) (ph : Bool) (hi : Mid c r ph) (
         split
         · exact handleRead_mid c r ph hi k x hx hst hch
         · exact hi
-
-theorem phaseAt_congr' {ss : List SockSt} {cs cs' : List ConnRec} {j : Nat}
-    (h2 : (findIn cs' j).map (fun r => (r.destroyed, decide (r.st = .disconnected))) =
-          (findIn cs j).map (fun r => (r.destroyed, decide (r.st = .disconnected)))) :
-    phaseAt ss cs' j = phaseAt ss cs j := by
-  unfold phaseAt
-  cases h : ss[j]? with
-  | none => rfl
-  | some v =>
-    cases v with
-    | opened => rfl
-    | closed => rfl
-    | handedOver =>
-      simp only
-      cases ha : findIn cs' j with
-      | none =>
-        cases hb : findIn cs j with
-        | none => rfl
-        | some b => rw [ha, hb] at h2; simp at h2
-      | some a =>
-        cases hb : findIn cs j with
-        | none => rw [ha, hb] at h2; simp at h2
-        | some b =>
-          rw [ha, hb] at h2; simp at h2
-          obtain ⟨h3, h4⟩ := h2
-          simp only [h3]
-          by_cases hd : b.st = .disconnected
-          · simp [hd, h4.mpr hd]
-          · simp [hd, mt h4.mp hd]
-
-/-- an update of one connection record that changes neither `destroyed` nor whether it is down -/
-theorem Tr.upd_same {tr n ss cs u nr sp al} (h : Tr tr n ss cs u nr sp al) (k : Nat) (f : ConnRec → ConnRec)
-    (hs : ∀ r, (f r).sock = r.sock)
-    (hf : ∀ r, findIn cs k = some r → (f r).destroyed = r.destroyed ∧ ((f r).st = .disconnected ↔ r.st = .disconnected)) :
-    Tr tr n ss (cs.map (updRec k f)) u nr sp al := by
-  apply h.same
-  intro j
-  apply phaseAt_congr'
-  rw [findIn_upd k j f hs]
-  cases hj : findIn cs j with
-  | none => rfl
-  | some y =>
-    simp only [Option.map_some, updRec]
-    split
-    · rename_i hk
-      have hjk : j = k := by rw [← (findIn_some hj).2]; simpa using hk
-      subst hjk
-      simp [(hf y hj).1, (hf y hj).2]
-    · rfl
-
-/-- `Connector::startCycleInLoop()`; `r0` is the queue before (with or without the functor itself) -/
-theorem startCycle_mid (c : C) (r r0 : List Task) (ph : Bool) (hr0 : r0 = r ∨ r0 = Task.startCycle :: r) (hi : Mid c r0 ph)
-    (hch : c.chan = none) (hcn : c.connection = none)
-    (hna : ¬ attempting c.cstate c.timers) (hns : .startCycle ∉ r ++ c.pending)
-    (hal : c.cConnect = true → c.clientAlive = true) : Mid (startCycle c) r ph := by
-  have hon : c.chanOn = false := by
-    cases h : c.chanOn
-    · rfl
-    · obtain ⟨k, hk, _⟩ := hi.a3 h; rw [hch] at hk; cases hk
-  have hnt : nRetry c.timers = 0 := by
-    cases h : nRetry c.timers
-    · rfl
-    · exact absurd (.inr (by omega)) hna
-  have hnc : c.cstate ≠ .kConnecting := fun h => hna (.inl h)
-  have htr := hi.tr.cycle
-  have hd0 := gen_kInit
-  have hst' : (if cycleClearsState c.cstate then States.kDisconnected else c.cstate) = .kDisconnected := by
-    unfold cycleClearsState
-    cases h : c.cstate <;> simp_all
-  unfold startCycle
-  rw [hst']
-  simp only [cycleResetsDelay, if_true]
-  apply startInLoop_mid
-  · rcases hr0 with rfl | rfl
-    all_goals obtain ⟨notDead, a1, a2, a3, a4, a5, a6, a7, a8, a9, a10, a11, a13, a14, a15, a16, s1, c1, c2, c3, c4, c5, c6, c7, c8, c9, c10, g1, g3, t1⟩ := hi
-    all_goals constructor
-    all_goals mid_auto2
-  · exact ⟨rfl, hch, hcn, hnt, hns, rfl, hal⟩
 
 theorem connectDestroyed_mid (c : C) (r : List Task) (ph : Bool) (k : Nat) (hi : Mid c (.connectDestroyed k :: r) ph) :
     Mid (connectDestroyed c k) r ph := by
@@ -197,21 +71,18 @@ theorem connectDestroyed_mid (c : C) (r : List Task) (ph : Bool) (k : Nat) (hi :
   have hxu : ∀ y ∈ c.conns, y.sock = k → y = x := by
     intro y hy hk
     have := findIn_of_mem hi.c2 hy; rw [hk, hx] at this; exact (Option.some.inj this).symm
-  obtain ⟨notDead, a1, a2, a3, a4, a5, a6, a7, a8, a9, a10, a11, a13, a14, a15, a16, s1, c1, c2, c3, c4, c5, c6, c7, c8, c9, c10, g1, g3, t1⟩ := hi
+  obtain ⟨notDead, a1, a2, a3, a4, a5, a6, a7, a8, a9, a10, a11, a13, a14, a15, a16, s1, c1, c2, c3, c4, c5, c6, c7, c8, c9, c10, g1, g3, h1, t1⟩ := hi
   constructor
   all_goals mid_auto3
   all_goals (intro y hy; obtain ⟨x0, hx0, rfl⟩ := hmem hy)
   · grind [updRec, chanOff]
   · grind [updRec, chanOff]
 
-theorem holds_shutdown (k j : Nat) : Task.holds (.shutdownInLoop k) j = false := by
-  simp [Task.holds, gen_shutdown_weak]
-
 theorem shutdownTask_mid (c : C) (r : List Task) (ph : Bool) (k : Nat) (hi : Mid c (.shutdownInLoop k :: r) ph) :
     Mid (runTask c (.shutdownInLoop k)) r ph := by
   have hw := holds_shutdown k
   have hdrop : Mid c r ph := by
-    obtain ⟨notDead, a1, a2, a3, a4, a5, a6, a7, a8, a9, a10, a11, a13, a14, a15, a16, s1, c1, c2, c3, c4, c5, c6, c7, c8, c9, c10, g1, g3, t1⟩ := hi
+    obtain ⟨notDead, a1, a2, a3, a4, a5, a6, a7, a8, a9, a10, a11, a13, a14, a15, a16, s1, c1, c2, c3, c4, c5, c6, c7, c8, c9, c10, g1, g3, h1, t1⟩ := hi
     constructor
     all_goals mid_auto3
   unfold runTask
@@ -229,15 +100,20 @@ theorem shutdownTask_mid (c : C) (r : List Task) (ph : Bool) (k : Nat) (hi : Mid
       have hk : c.sockSt[k]? = some SockSt.handedOver := by rw [← hxs]; exact hi.c1 x hxm
       have htr := hi.tr.shutdownWr hk hx hd
       unfold emit
-      obtain ⟨notDead, a1, a2, a3, a4, a5, a6, a7, a8, a9, a10, a11, a13, a14, a15, a16, s1, c1, c2, c3, c4, c5, c6, c7, c8, c9, c10, g1, g3, t1⟩ := hdrop
+      obtain ⟨notDead, a1, a2, a3, a4, a5, a6, a7, a8, a9, a10, a11, a13, a14, a15, a16, s1, c1, c2, c3, c4, c5, c6, c7, c8, c9, c10, g1, g3, h1, t1⟩ := hdrop
       constructor
       all_goals mid_auto3
 
-theorem handleClose_detached_eq (c : C) (k : Nat) (x : ConnRec) (hx : findIn c.conns k = some x) (hcb : x.closeCb = .detached) :
+theorem handleClose_detached_eq (c : C) (k : Nat) (x : ConnRec) (hx : findIn c.conns k = some x) (hcb : x.closeCb = .detached)
+    (hal : c.clientAlive = false) (hnd : c.dead = false) :
     handleClose c k = { c with conns := c.conns.map (updRec k goDown), trace := c.trace ++ [.down k],
                                pending := c.pending ++ [.connectDestroyed k] } := by
-  unfold handleClose
+  have e : runHookDown (downState c k) k = downState c k := by
+    unfold runHookDown
+    rw [if_neg (by rw [show (downState c k).clientAlive = c.clientAlive from rfl, hal]; exact Bool.false_ne_true)]
+  rw [handleClose_eq]
   simp only [findConn_eq, hx, Option.map_some, Option.getD_some, hcb]
+  rw [e, if_neg (by rw [show (downState c k).dead = c.dead from rfl, hnd]; exact Bool.false_ne_true)]
   rfl
 
 theorem forceCloseTask_mid (c : C) (r : List Task) (ph : Bool) (k : Nat) (hi : Mid c (.forceCloseInLoop k :: r) ph) :
@@ -249,7 +125,7 @@ theorem forceCloseTask_mid (c : C) (r : List Task) (ph : Bool) (k : Nat) (hi : M
   rw [hcs]
   split
   · rename_i hst
-    rw [handleClose_detached_eq c k x hx hcb]
+    rw [handleClose_detached_eq c k x hx hcb (hi.c10 x (findIn_some hx).1 hcb) hi.notDead]
     exact closeDetached_mid c r _ ph (.inr rfl) hi x hx (by rcases hst with h | h <;> rw [h] <;> simp) hcb
   · rename_i hst
     have hdis : x.st = .disconnected := by
@@ -257,7 +133,7 @@ theorem forceCloseTask_mid (c : C) (r : List Task) (ph : Bool) (k : Nat) (hi : M
     have hxu : ∀ y ∈ c.conns, y.sock = k → y = x := by
       intro y hy hk
       have := findIn_of_mem hi.c2 hy; rw [hk, hx] at this; exact (Option.some.inj this).symm
-    obtain ⟨notDead, a1, a2, a3, a4, a5, a6, a7, a8, a9, a10, a11, a13, a14, a15, a16, s1, c1, c2, c3, c4, c5, c6, c7, c8, c9, c10, g1, g3, t1⟩ := hi
+    obtain ⟨notDead, a1, a2, a3, a4, a5, a6, a7, a8, a9, a10, a11, a13, a14, a15, a16, s1, c1, c2, c3, c4, c5, c6, c7, c8, c9, c10, g1, g3, h1, t1⟩ := hi
     constructor
     all_goals mid_auto3
 
